@@ -169,6 +169,8 @@ TraceEnd ==
   /\ IsEvent("end")
   /\ LET C == StateFrom(Ev.st) IN
      /\ Chk(\A f \in BoundFields : br[f] = C[f], "STATE-MISMATCH", Diff(br, C))
+     \* C17: a withdrawal whose address is refused is REFUNDED - the queue of refund notices owed to the execution layer
+     /\ Chk(B("refunds") => br.q.rejected = C.q.rejected, "REFUND-QUEUE-MISMATCH", << br.q.rejected, C.q.rejected >>)
      /\ Ev.st.big = 0
      /\ br' = C
   /\ UNCHANGED hist
